@@ -405,6 +405,54 @@ func orbiterEventNames(evs sdk.Events) string {
 	return strings.Join(names, ",")
 }
 
+// bankMoves lists, in order, the coin movements the bank module reported: x = transfer, b = burn, m = mint (coinbase).
+func (s *appState) bankMoves(evs sdk.Events) string {
+	var parts []string
+	attr := func(e sdk.Event, k string) string {
+		for _, a := range e.Attributes {
+			if a.Key == k {
+				return a.Value
+			}
+		}
+		return ""
+	}
+	addrHex := func(b32 string) string {
+		a, err := sdk.AccAddressFromBech32(b32)
+		if err != nil {
+			return "bad:" + hx(b32)
+		}
+		return s.canonAddr(a)
+	}
+	for _, e := range evs {
+		var pre string
+		switch e.Type {
+		case "transfer":
+			pre = "x:" + addrHex(attr(e, "sender")) + ":" + addrHex(attr(e, "recipient"))
+		case "burn":
+			pre = "b:" + addrHex(attr(e, "burner"))
+		case "coinbase":
+			pre = "m:" + addrHex(attr(e, "minter"))
+		default:
+			continue
+		}
+		coins, err := sdk.ParseCoinsNormalized(attr(e, "amount"))
+		if err != nil {
+			parts = append(parts, pre+":bad:"+hx(attr(e, "amount")))
+			continue
+		}
+		for _, c := range coins {
+			if c.Amount.IsZero() {
+				continue
+			}
+			parts = append(parts, pre+":"+hx(s.canonDenom(s.env.Ctx, c.Denom))+":"+c.Amount.String())
+		}
+	}
+	if len(parts) == 0 {
+		return "-"
+	}
+	return strings.Join(parts, ",")
+}
+
 func eventsHash(evs sdk.Events) string {
 	h := sha256.New()
 	for _, e := range evs {
@@ -428,16 +476,18 @@ func (s *appState) recvLine(d *driver, stack porttypes.IBCModule, f []string, wi
 	obs, bal, sup := s.runRecv(d, stack, pkt, true)
 	req := "-"
 	ev := "-"
+	mv := "-"
 	if obs.ack == "ok" {
 		req = s.reqFromEvents(obs.events)
 		ev = orbiterEventNames(obs.events)
+		mv = s.bankMoves(obs.events)
 	}
 	ackh := sha256.Sum256(obs.ackBytes)
 	pattr := "-"
 	if obs.ack == "panic" {
 		pattr = panicAttribution(obs.panicMsg)
 	}
-	return fmt.Sprintf("ack=%s src=%s bal=%s sup=%s req=%s ev=%s st=%s ackh=%s evh=%s pattr=%s acktxt=%s", obs.ack, obs.src, bal, sup, req, ev,
+	return fmt.Sprintf("ack=%s src=%s bal=%s sup=%s req=%s ev=%s mv=%s st=%s ackh=%s evh=%s pattr=%s acktxt=%s", obs.ack, obs.src, bal, sup, req, ev, mv,
 		s.stateStr(s.env.Ctx), hex.EncodeToString(ackh[:8]), eventsHash(obs.events), pattr, hxb(obs.ackBytes))
 }
 
@@ -477,6 +527,8 @@ func (s *appState) op(d *driver, f []string) string {
 		return s.deposit(f[1:])
 	case "msg":
 		return s.msg(d, f[1:])
+	case "msgdry":
+		return s.msgdry(d, f[1:])
 	case "msgany":
 		return s.msgAny(d, f[1:])
 	case "listrpcs":
@@ -550,6 +602,12 @@ func (s *appState) buildMsg(rpc string, signer string, a []string) (sdk.Msg, boo
 
 // runMsg executes through the app's MsgServiceRouter with message-level rollback (cached ctx, write on success).
 func (s *appState) runMsg(d *driver, m sdk.Msg) (res string, evs sdk.Events, errTxt string) {
+	return s.runMsgOn(d, m, true)
+}
+
+// runMsgOn with commit=false runs the handler on a branch that is then dropped, as baseapp does for a
+// simulation or for a transaction whose later message fails.
+func (s *appState) runMsgOn(d *driver, m sdk.Msg, commit bool) (res string, evs sdk.Events, errTxt string) {
 	h := s.env.App.MsgServiceRouter().Handler(m)
 	if h == nil {
 		return "noroute", nil, ""
@@ -574,7 +632,9 @@ func (s *appState) runMsg(d *driver, m sdk.Msg) (res string, evs sdk.Events, err
 		for _, e := range r.GetEvents() {
 			evs = append(evs, sdk.Event(e))
 		}
-		write()
+		if commit {
+			write()
+		}
 	}()
 	return res, evs, errTxt
 }
@@ -590,6 +650,19 @@ func (s *appState) msg(d *driver, f []string) string {
 	}
 	res, evs, errTxt := s.runMsg(d, m)
 	return fmt.Sprintf("res=%s ev=%s st=%s req=%s errtxt=%s", res, orbiterEventNames(evs), s.stateStr(s.env.Ctx), s.reqFromEvents(evs), hx(errTxt))
+}
+
+// msgdry <rpc> <signerStringHex> args...: the message executed on a discarded branch.
+func (s *appState) msgdry(d *driver, f []string) string {
+	if len(f) < 2 {
+		return "bad-op"
+	}
+	m, ok := s.buildMsg(f[0], mustUnhx(f[1]), f[2:])
+	if !ok {
+		return "bad-op"
+	}
+	res, _, _ := s.runMsgOn(d, m, false)
+	return fmt.Sprintf("res=%s st=%s", res, s.stateStr(s.env.Ctx))
 }
 
 func pageReq(f []string) *query.PageRequest {
